@@ -65,3 +65,8 @@ def replay(data):
     fails = judge(c, r)
     print('\n'.join(fails) if fails else 'ok: %s' % r['outcome'])
     return not fails
+
+def judge_witness(w):
+    c = {'src': w['src'], 'opts': w.get('opts') or {}, 'multi': w.get('multi', False), 'files': w.get('files'),
+         'thresh': w.get('thresh'), 'want_toks': False}
+    return judge(c, t2t.run_case(c))
